@@ -353,6 +353,7 @@ pub fn gen_node(prop: &str, kind: &str, profile: u8, tier: Tier, rng: &mut Rng, 
         0.0
     };
     let is_cpid = kind == "cpid";
+    let prop_is_c11 = prop == "C11";
     let is_freeze = kind == "freeze";
     let mut cur_cmd = (plan.get("cmd_kind"), plan.get("cmd_bits"));
     let mut following = false;
@@ -457,7 +458,7 @@ pub fn gen_node(prop: &str, kind: &str, profile: u8, tier: Tier, rng: &mut Rng, 
             }
             // structural profile: a glitched reading now and then (the structural statements - no stale
             // error, reset = restart, get is pure - do not depend on the values being numbers)
-            if profile == 0 && ramp == 0 && rng.chance(0.02) {
+            if (profile == 0 || (is_cpid && prop_is_c11)) && ramp == 0 && rng.chance(0.02) {
                 v = *rng.pick(&[f32::NAN, f32::INFINITY, f32::NEG_INFINITY]);
             }
             if ulp_walk {
@@ -486,6 +487,15 @@ pub fn gen_node(prop: &str, kind: &str, profile: u8, tier: Tier, rng: &mut Rng, 
                         0 => p = hover(rng, r),
                         1 => vel = hover(rng, r),
                         _ => acc = hover(rng, r),
+                    }
+                }
+                if !v.is_finite() {
+                    // a glitched reading: usually in the component the command controls
+                    p = value_gen(rng, scale, false, None);
+                    match if rng.chance(0.7) { plan.get("cmd_kind") } else { rng.below(3) as i64 } {
+                        0 => p = v,
+                        1 => vel = v,
+                        _ => acc = v,
                     }
                 }
                 plan.push("SS", &[t, fb(p), fb(vel), fb(acc)]);
